@@ -150,6 +150,10 @@ func evaluateSearchCaseExpression(node *ExprNode, data map[string]any) (float64,
 		// Evaluate WHEN condition with SQL three-valued logic (NULL is not true)
 		conditionResult, _, err := evaluateConditionWithNull(whenClause.Condition, data)
 		if err != nil {
+			// A condition over a function that fails on a NULL argument is not true
+			if isNullArgumentError(err) {
+				continue
+			}
 			return 0, err
 		}
 
@@ -190,6 +194,10 @@ func evaluateCaseExpressionWithNull(node *ExprNode, data map[string]any) (any, b
 		// NULL or missing column is not true, so the next WHEN / ELSE is taken
 		conditionResult, _, err := evaluateConditionWithNull(whenClause.Condition, data)
 		if err != nil {
+			// A condition over a function that fails on a NULL argument is not true
+			if isNullArgumentError(err) {
+				continue
+			}
 			return nil, false, err
 		}
 
